@@ -3,8 +3,9 @@
 Monitor: relational comparison of layouts returned at the API boundary. (1) Fragments A and B over disjoint slot sets
 are analysed alone and together behind a dispatcher: every slot must have the same entries in D(A,B) as in its own
 fragment. (2) A program and its image under an injective renumbering of slot constants must have layouts that are
-images of each other. Each program is analysed under 3 hash seeds; slots whose entries differ between seeds are the
-order dependence recorded under C02 and are excluded (counted), so that it cannot raise alarms here.
+images of each other. Each program is analysed under 3 hash seeds and, under the first of them, with the unification fold order forced to
+sorted / reversed / two shuffles; slots whose entries differ between any of these runs are the order dependence
+recorded under C02 and are excluded (counted), so that it cannot raise alarms here.
 """
 import json
 
@@ -28,9 +29,16 @@ def stable_layout(d, code, seeds):
     """Analyses under several hash seeds; returns (per-slot entries for slots stable across seeds, unstable slots) or
     None if any run failed."""
     runs = []
-    for s in seeds:
-        r = d.call({"op": "analyze", "code": code.hex(), "stage": "analyze", "cfg": {"permissive": True}, "wd": BUDGET,
-                    "rand_seed": s}, timeout=300)
+    # hash seeds vary every iteration order; on top of that the unification fold order - the one order known to change
+    # results (C02's recorded finding) - is forced to sorted / reversed / two shuffles under the first seed
+    variants = [(s, None) for s in seeds] + [(seeds[0], {"mode": m, "seed": k}) for m, k in
+                                             (("sorted", 0), ("reversed", 0), ("shuffle", 1), ("shuffle", 2))]
+    for s, fold in variants:
+        req = {"op": "analyze", "code": code.hex(), "stage": "analyze", "cfg": {"permissive": True}, "wd": BUDGET,
+               "rand_seed": s}
+        if fold:
+            req["fold"] = fold
+        r = d.call(req, timeout=300)
         if r.get("class") != "ok":
             return None, r
         runs.append(by_slot(r["layout"]))
@@ -187,8 +195,8 @@ def run(tier, seed, t0):
         "pairs of fragments over disjoint slot sets (ground-truth idioms, or 1-3 pieces of mixed evidence per slot) "
         "analysed alone and together behind a dispatcher (compare chain / binary split / fall-through default, branches "
         "interleaved in random order); programs and their images under injective slot renumberings (small to small, "
-        "small to 2^16..2^64, small to > 2^130: PUSH widths and all offsets change). Each program under 3 hash seeds; "
-        "slots unstable across seeds are excluded (C02). distinct = distinct program pair / (program, renumbering)",
+        "small to 2^16..2^64, small to > 2^130: PUSH widths and all offsets change). Each program under 3 hash seeds "
+        "plus 4 forced unification fold orders; slots unstable across those runs are excluded (C02). distinct = distinct program pair / (program, renumbering)",
         t0, ["cases in which any run hits the visit or fork limit, or fails, are discarded (counted as inconclusive)",
              "layout comparison ignores conflict explanations"], min_judged=50)
 
